@@ -266,7 +266,7 @@ func (h *harness) queryRound(s, round int, w *world, r *lib.RNG, sp scenarioPara
 		if h.replay != nil && !(h.replay.Round == round && h.replay.Query == qi) {
 			continue
 		}
-		got := make([][]string, len(versions)) // [version][backend] projection line
+		got := make([][]string, len(versions))  // [version][backend] projection line
 		violated := make([]bool, len(versions)) // an answer of this version was already reported
 		exps := make([]expectation, len(versions))
 		for vi, ver := range versions {
@@ -519,7 +519,7 @@ func (h *harness) violate(c *caseCtx, exp expectation, got string, resp rpcResp)
 	case q.method == "txByIdx" && q.id.kind == "num-missing" && got == errLine(codeInvalidTxIndex) && exp.lines[0] == errLine(codeBlockNotFound):
 		sig = "getTransactionByBlockIdAndIndex-missing-block-number-reports-invalid-index"
 	case isStateMethod(q.method) && q.id != nil && q.id.kind == "hash-zero" && exp.lines[0] == errLine(codeBlockNotFound) &&
-		got == emptyStateAnswer(q.method, c.ver) && (c.backend == "legacy" || c.w.headReaderAnswers(q, c.ver, got)):
+		got == emptyStateAnswer(q.method, c.ver):
 		sig = sigHashZeroEmpty
 	case isStateMethod(q.method) && q.id != nil && q.id.kind == "hash-zero" && exp.lines[0] == errLine(codeBlockNotFound) &&
 		c.backend == "new" && strings.HasPrefix(got, "ok ") && c.w.headReaderAnswers(q, c.ver, got):
@@ -540,10 +540,10 @@ func (h *harness) violate(c *caseCtx, exp expectation, got string, resp rpcResp)
 
 // Signatures of the ways juno is known to leave the statement (known/C08.json).
 const (
-	sigHashZeroEmpty  = "state-read-at-block-hash-zero-answers-as-for-an-empty-state"
-	sigHashZeroHead   = "state-read-at-block-hash-zero-returns-head-state-data-on-new-backend"
-	sigStaleSlot      = "new-backend-head-read-returns-stale-value-of-zeroed-slot"
-	sigStaleReverted  = "new-backend-head-read-returns-value-written-by-reverted-block"
+	sigHashZeroEmpty = "state-read-at-block-hash-zero-answers-as-for-an-empty-state"
+	sigHashZeroHead  = "state-read-at-block-hash-zero-returns-head-state-data-on-new-backend"
+	sigStaleSlot     = "new-backend-head-read-returns-stale-value-of-zeroed-slot"
+	sigStaleReverted = "new-backend-head-read-returns-value-written-by-reverted-block"
 )
 
 // usesHeadReader: does the handler serve this request from a head reader (`latest`, v8
